@@ -236,6 +236,12 @@ func Judge(t Fataler, property, test string, err error, cse interface{}) bool {
 		KnownHit(sig)
 		return false
 	}
+	if SigOf(err) == "" {
+		// not a violation of the property but trouble in the harness itself (setup, child start-up, I/O):
+		// never reported as a violation; the driver turns it into "inconclusive"
+		t.Fatalf("HARNESS-ERROR property=%s test=%s: %v", property, test, err)
+		return false
+	}
 	WriteFail(property, test, err, cse)
 	t.Fatalf("VIOLATION-CANDIDATE property=%s test=%s: %v", property, test, err)
 	return false
@@ -304,6 +310,10 @@ func RunReplay(t TB, handlers map[string]func(raw json.RawMessage) error) {
 	}()
 	if err != nil {
 		msg := strings.ReplaceAll(err.Error(), "\n", " | ")
+		if SigOf(err) == "" {
+			fmt.Printf("REPLAY-ERROR harness trouble, not a verdict: %s\n", msg)
+			t.Fatalf("replay could not be evaluated")
+		}
 		fmt.Printf("REPLAY-FAIL sig=%s msg=%s\n", SigOf(err), msg)
 		t.Fatalf("replay failed")
 	}
